@@ -137,41 +137,76 @@ def r_branch(c):
     admitted = {env["op"] for env, val in rows if val}
     OPS = {"ADD": ast.Add, "SUB": ast.Sub, "MULT": ast.Mult, "TRUEDIV": ast.Div,
            "FLOORDIV": ast.FloorDiv, "POWER": ast.Pow, "MOD": ast.Mod}
-    handled = {}
     hl = find(fd, "$hlo = index_lambda_to_high_level_op($e)")
     if len(hl) != 1:
         raise AnalysisError("anchor vanished: raised operation in map_index_lambda")
     hlo = hl[0]["$hlo"]
     ctxp = fd.args.args[2].arg
-    recs = {}
-    for i in ("1", "2"):
-        r = find(fd, f"$r = _verify_is_array($s.rec({hlo}.x{i}, {ctxp})) "
-                     f"if isinstance({hlo}.x{i}, Array) else {hlo}.x{i}")
-        recs[i] = r[0]["$r"] if len(r) == 1 else None
-    for iff in ast.walk(fd):
-        if isinstance(iff, ast.If) and isinstance(iff.test, ast.Compare) \
-                and ast.unparse(iff.test.left) == f"{hlo}.binary_op" \
-                and isinstance(iff.test.ops[0], ast.Eq):
-            op = iff.test.comparators[0].attr
-            rets = [r for s in iff.body for r in ast.walk(s) if isinstance(r, ast.Return)]
-            handled[op] = (iff, rets)
     where = m.loc(m.module_of(fd), fd)
-    if len(handled) < 3:
-        raise AnalysisError("anchor vanished: per-operator branches in map_index_lambda")
-    for op, (iff, rets) in sorted(handled.items()):
-        ok = False
-        for r in rets:
-            v = r.value
-            while isinstance(v, ast.Call) and isinstance(v.func, ast.Name) \
-                    and v.func.id == "cast":
-                v = v.args[1]
-            if isinstance(v, ast.BinOp) and op in OPS and isinstance(v.op, OPS[op]) \
-                    and ast.unparse(v.left) == recs["1"] and ast.unparse(v.right) == recs["2"]:
-                ok = True
-        c.check(ok and len(rets) == 1, "R06-BRANCH", "EinsumDistributiveLawMapper.map_index_lambda",
-                f"{op}:operator-and-operand-order", m.loc(m.module_of(iff), iff),
-                f"the branch for {op} does not return `rec_x1 <{op}> rec_x2` (wrong "
-                "operator or swapped operands)")
+    # Decision table of the handler's returns, on the normal form (helpers inlined,
+    # locals propagated, early return == else): for every returned `l <op> r`, the
+    # set of BinaryOpType values under which it is reached is computed from the
+    # tests on hlo.binary_op along its path (==, !=, in, not in).
+    from pta.pat import expr_is
+    nf = m.normal(fd)
+    hl2 = find(nf, "$hlo = index_lambda_to_high_level_op($e)")
+    if hl2:
+        hlo = hl2[0]["$hlo"]
+    else:       # the local was propagated: the raised operation is the call itself
+        calls = [x for x in ast.walk(nf) if isinstance(x, ast.Call)
+                 and ast.unparse(x.func).endswith("index_lambda_to_high_level_op")]
+        if not calls:
+            raise AnalysisError("anchor vanished: raised operation in map_index_lambda")
+        hlo = ast.unparse(calls[0])
+    table = m.returns_by_condition(nf)
+    if table is None:
+        raise AnalysisError("map_index_lambda: a return inside a loop/try: decision table "
+                            "of the operator branches cannot be built")
+    universe = set(ops)
+
+    def members(e):
+        if isinstance(e, ast.Attribute):
+            return {e.attr}
+        if isinstance(e, (ast.Tuple, ast.List, ast.Set)):
+            return set().union(*[members(x) for x in e.elts]) if e.elts else set()
+        if isinstance(e, ast.Call) and e.args:       # frozenset({...}) and the like
+            return members(e.args[0])
+        return None
+    handled = {}      # op -> [(binop node, left ok, right ok)]
+    n_bin = 0
+    side = {i: f"_verify_is_array($s.rec({hlo}.x{i}, {ctxp})) "
+               f"if isinstance({hlo}.x{i}, Array) else {hlo}.x{i}" for i in ("1", "2")}
+    for conds, v in table:
+        while isinstance(v, ast.Call) and isinstance(v.func, ast.Name) and v.func.id == "cast":
+            v = v.args[1]
+        if not isinstance(v, ast.BinOp):
+            continue
+        n_bin += 1
+        live = set(universe)
+        for txt, pol in conds:
+            t = ast.parse(txt, mode="eval").body
+            if not (isinstance(t, ast.Compare) and len(t.ops) == 1
+                    and ast.unparse(t.left) == f"{hlo}.binary_op"):
+                continue
+            mem = members(t.comparators[0])
+            if mem is None:
+                continue
+            positive = isinstance(t.ops[0], (ast.Eq, ast.In, ast.Is))
+            live = (live & mem) if positive == pol else (live - mem)
+        for op in live:
+            handled.setdefault(op, []).append(
+                (v, expr_is(v.left, side["1"]), expr_is(v.right, side["2"])))
+    if n_bin < 3:
+        raise AnalysisError("anchor vanished: per-operator returns `l <op> r` in "
+                            "map_index_lambda")
+    for op, rets in sorted(handled.items()):
+        ok = len(rets) == 1 and op in OPS and isinstance(rets[0][0].op, OPS[op]) \
+            and rets[0][1] and rets[0][2]
+        c.check(ok, "R06-BRANCH", "EinsumDistributiveLawMapper.map_index_lambda",
+                f"{op}:operator-and-operand-order", m.loc(m.module_of(fd), rets[0][0]),
+                f"under binary_op == {op} the handler does not return exactly "
+                f"`rec(x1) <{op}> rec(x2)` (wrong operator, swapped operands, or more than "
+                "one return reachable)")
     for op in sorted(admitted | set(handled)):
         c.check(op in handled and op in admitted, "R06-BRANCH",
                 "EinsumDistributiveLawMapper.map_index_lambda", f"{op}:handled-iff-admitted",
@@ -179,9 +214,9 @@ def r_branch(c):
                 f"{op} is " + ("admitted by the predicate but has no branch"
                                if op in admitted else
                                "handled by a branch the predicate never admits"))
-    # rec_x1 / rec_x2 come from hlo.x1 / hlo.x2 respectively
-    for i in ("1", "2"):
-        ok = recs[i] is not None and recs["1"] != recs["2"]
+    # the operands of every returned operation are the recursions on x1 / x2
+    for k, i in ((1, "1"), (2, "2")):
+        ok = all(r[k] for rs in handled.values() for r in rs)
         c.check(ok, "R06-BRANCH", "EinsumDistributiveLawMapper.map_index_lambda",
                 f"rec_x{i}-from-x{i}", where,
                 f"rec_x{i} is not the recursion on hlo.x{i} (with the context passed on)")
@@ -344,42 +379,71 @@ def r_squeeze(c):
             "EinsumWithNoBroadcastsRewriter._squeeze_axes", "index-0-exactly-on-squeezed-axes",
             where, "the squeezed operand is not indexed with 0 exactly on the axes to "
             "squeeze and sliced fully elsewhere")
+    # map_einsum, on the normal form (helpers inlined, single-assignment locals
+    # propagated, fill loops as comprehensions): B = the broadcast axes of an operand
+    from pta.pat import expr_is
     ep = me.args.args[1].arg
+    me = m.normal(me)
     lp = [l for l in ast.walk(me) if isinstance(l, ast.For) and has(
-        l.iter, f"zip({ep}.args, {ep}.access_descriptors, strict=True)")]
-    env = {}
-    if len(lp) == 1 and isinstance(lp[0].target, ast.Tuple) and len(lp[0].target.elts) == 2:
-        env = {"$arg": lp[0].target.elts[0].id, "$descrs": lp[0].target.elts[1].id}
-    sqz = find(me, "$ax = tuple($axl)")
-    axv = sqz[0]["$ax"] if len(sqz) == 1 else "?"
-    axl = sqz[0]["$axl"] if len(sqz) == 1 else "?"
-    c.check(bool(env) and has(
-        me, f"$nd = tuple(($d for $i, $d in enumerate($descrs) if $i not in {axv}))", env),
-            "R06-SQUEEZE", "EinsumWithNoBroadcastsRewriter.map_einsum",
+        l.iter, f"zip({ep}.args, {ep}.access_descriptors, strict=True)")
+        and isinstance(l.target, ast.Tuple) and len(l.target.elts) == 2
+        and all(isinstance(t, ast.Name) for t in l.target.elts)]
+    if len(lp) != 1:
+        raise AnalysisError("anchor vanished: loop over zip(expr.args, "
+                            "expr.access_descriptors, strict=True) in map_einsum")
+    loop = lp[0]
+    argv, descrs = (t.id for t in loop.target.elts)
+    bpat = (f"tuple(($i for $i, $d in enumerate({descrs}) if not are_shape_components_equal("
+            f"{argv}.shape[$i], {ep}._access_descr_to_axis_len()[$d])))")
+
+    def deref(e):
+        if isinstance(e, ast.Name):
+            asg = [a for a in ast.walk(loop) if isinstance(a, (ast.Assign, ast.AnnAssign))
+                   and any(isinstance(t, ast.Name) and t.id == e.id for t in (
+                       a.targets if isinstance(a, ast.Assign) else [a.target]))]
+            if len(asg) == 1 and asg[0].value is not None:
+                return asg[0].value
+        return e
+
+    def is_b(e):
+        return expr_is(deref(e), bpat)
+    gens = find(loop, f"tuple(($d for $i, $d in enumerate({descrs}) if $i not in $$x))")
+    ok = bool(gens) and all(
+        is_b(g["@node"].args[0].generators[0].ifs[0].comparators[0]) for g in gens)
+    c.check(ok, "R06-SQUEEZE", "EinsumWithNoBroadcastsRewriter.map_einsum",
             "drops-descriptors-of-squeezed-axes", m.loc(m.module_of(me), me),
             "the access descriptors kept are not exactly those of the axes that are "
             "not squeezed (sibling of _squeeze_axes' membership test)")
     # the axes squeezed are exactly those whose length differs from the einsum's
-    c.check(bool(env) and has(me, f"""
-{axl} = []
-for $i, $d in enumerate($descrs):
-    if not are_shape_components_equal($arg.shape[$i], $lens[$d]):
-        assert are_shape_components_equal($arg.shape[$i], 1)
-        {axl}.append($i)
-{axv} = tuple({axl})
-""", env) and has(me, f"$lens = {ep}._access_descr_to_axis_len()"),
-            "R06-SQUEEZE", "EinsumWithNoBroadcastsRewriter.map_einsum",
+    recs = [x for x in ast.walk(loop) if isinstance(x, ast.Call)
+            and ast.unparse(x.func) == "self.rec" and len(x.args) == 2
+            and ast.unparse(x.args[0]) == argv]
+    n_b = 0
+    ok = bool(recs)
+    for r in recs:
+        if is_b(r.args[1]):
+            n_b += 1
+            continue
+        # `()` is what B is on the arm where B is empty
+        empty_arm = False
+        q, ch = r._parent, r
+        while q is not loop:
+            if isinstance(q, ast.If) and is_b(q.test) and any(ch is s_ for s_ in q.orelse):
+                empty_arm = True
+            ch, q = q, q._parent
+        if not (ast.unparse(r.args[1]) == "()" and empty_arm):
+            ok = False
+    c.check(ok and n_b >= 1, "R06-SQUEEZE", "EinsumWithNoBroadcastsRewriter.map_einsum",
             "squeezes-only-broadcast-unit-axes", m.loc(m.module_of(me), me),
-            "an axis is squeezed without being a unit axis that differs from the "
-            "einsum's axis length")
+            "an operand is not rewritten with exactly its broadcast axes squeezed (the "
+            "axes whose length differs from the einsum's length for their descriptor)")
     # args and descriptors are appended in step
     ok = False
     fin = find(me, f"return {ep}.replace_if_different(args=tuple($na), "
                    "access_descriptors=tuple($nd))")
-    for l in lp:
-        direct = [ast.unparse(s) for s in l.body]
-        ok = len(fin) == 1 and any(s.startswith(fin[0]["$na"] + ".append(") for s in direct) \
-            and any(s.startswith(fin[0]["$nd"] + ".append(") for s in direct)
+    direct = [ast.unparse(s) for s in loop.body]
+    ok = len(fin) == 1 and any(s.startswith(fin[0]["$na"] + ".append(") for s in direct) \
+        and any(s.startswith(fin[0]["$nd"] + ".append(") for s in direct)
     c.check(ok, "R06-SQUEEZE", "EinsumWithNoBroadcastsRewriter.map_einsum",
             "args-and-descriptors-in-step", m.loc(m.module_of(me), me),
             "operands and access descriptors are no longer rebuilt in the same loop, "
